@@ -21,7 +21,7 @@ CHECKS = {
    "After every add_frame_result in every simulated history (all three tasks, both frames, narrow and wide critical filters, FP-labelled ground truth, duplicates and re-evaluation): results = TP + FP by identity, every critical ground truth accounted exactly once, ordinary GT = TP + FN, nothing foreign in the four lists, each TP label-compatible and beating the pass/fail threshold of its GT label, nobody outside the critical region (ego-relative position recomputed from world truth), success/fail counts.",
    "Pass/fail score of boxes in space (plane distance) read from the implementation, IoU of image ROIs recomputed; worlds never contain two ground truths equal in time, label, position and orientation (DynamicObject.__eq__ cannot tell them apart)."),
  "C16": ("primary, I/O", "3 (C16)", TECH % "simulator is the storage peer: world tables -> real files -> real devkit + loader, compared table by table; reload after evaluator restart",
-   "Generated well-formed T4 datasets (1..24 samples, appearing/disappearing instances, categories inside and outside the label table, T4 and nuScenes visibility spellings or none, extra camera/radar sensors, shuffled row order, negated quaternions) are loaded by the real loader for detection / tracking / fp_validation managers and directly for the sensing task, in both frames; frames, timestamps, one object per annotation, uuid, label, attributes, size, point count, visibility, pose in map / ego frame, stored ego->map transform, tracked-path window; a second load (evaluator restart) must give equal frames.",
+   "Generated well-formed T4 datasets (1..24 samples, appearing/disappearing instances, categories inside and outside the label table, T4 and nuScenes visibility spellings or none, extra camera/radar sensors, sensor records stamped after their sample, shuffled row order, negated quaternions) are loaded by the real loader for detection / tracking / fp_validation managers and directly for the sensing task, in both frames; frames, timestamps, one object per annotation, uuid, label, attributes, size, point count, visibility, pose in map / ego frame, stored ego->map transform, tracked-path window; a second load (evaluator restart) must give equal frames.",
    "No disk faults: the statement quantifies over well-formed datasets. Label conversion itself (C14) is trusted. Tracked-path positions are judged in the map frame only (the devkit returns global records)."),
  "C19": ("primary", "3 (C19)", TECH % "end-of-run check over the recorded history handed over through the pickle result store to the real analyzer",
    "At analyze events (mid-run and at the end; several scenes when the evaluator was restarted) the manager's frame results are pickled, unpickled and fed to PerceptionAnalyzer3D with 1/3/9 area divisions: per-status counts, estimate count, ground-truth count, row pairs in documented order with ego-frame x/y/yaw from world truth, area index, errors = GT - estimate (yaw wrapped), mean/RMS/max summaries, rates in [0,1], confusion-matrix sum, label and scene selections, per-object status tallies.",
@@ -39,7 +39,7 @@ CHECKS = {
    "Within every frame and scene score: for every matching mode with >= 2 thresholds AP/APH/mAP are monotone from stricter to looser. For sampled deliveries a twin evaluator receives the same delivery with the pass/fail threshold loosened x1.5 and x4: TP set grows, FN count does not (ordinary ground truth only).",
    "Twin comparisons are skipped when the twin does not see the same results (history dependence is C13's business)."),
  "C10": ("secondary", "4 (C10)", TECH % "reference predicate with world-truth ego pose on every filter call of the manager / frame result, plus probe calls",
-   "Every filter_objects / filter_object_results call made during every step is recorded and judged: output = order-preserving sub-list selected by the reference predicate (ego-relative position recomputed from the object's state and the world's ego pose), a result removed when either side fails, input untouched; the real function is called again for idempotence and with each bound widened (superset).",
+   "Every filter_objects / filter_object_results call made during every step is recorded and judged: output = order-preserving sub-list selected by the reference predicate (ego-relative position recomputed from the object's state and the world's ego pose), a result removed when either side fails, input untouched; the real function is called again for idempotence, with each bound widened (superset) and with the paired ground truths' own scores lowered (confidence binds estimates only).",
    "Per recorded call (relative to the call's arguments, object roles decided by provenance) and end to end (final ground truth of the frame result against the criteria the plan configured); 3D objects and image ROIs (label / attribute / confidence / uuid criteria only); GT-less results under a uuid filter are not judged (statement silent); decisions within 1e-6 of a bound skipped."),
 }
 NA = json.load(open(os.path.join(HERE, "MANIFEST.json")))["not_applicable"]
